@@ -156,16 +156,20 @@ def rule_shebang(ck: Check, repo: Repo) -> None:
         if not all(e.lineno < ch[0].lineno for e in ex) or not ch[0].lineno < ph[0].lineno:
             r.violation(q, "header is created before the shebang is extracted",
                         "the shebang would end up inside / below the comment block", repo.loc(ch[0]))
-        pa = [ast.unparse(a) for a in ph[0].args]
-        want = ["new_header", "before", "after", "bool(header)"] if name == "find_and_replace_header" else ["header", "shebang", "text", "False"]
+        from ..rules import deep_text
+        pa = [deep_text(fn, a) for a in ph[0].args]
+        created = deep_text(fn, ch[0])
+        want = [created, "before", "after", "bool(header)"] if name == "find_and_replace_header" else [created, "shebang", "text", "False"]
         if pa != want:
-            r.violation(q, "place_header operands", f"{pa}; expected {want}", repo.loc(ph[0]))
+            r.violation(q, "place_header operands", f"{pa}; expected {['<the created header>'] + want[1:]}", repo.loc(ph[0]))
         if "if style.SHEBANGS:" not in ast.unparse(fn):
             r.violation(q, "shebang table not consulted", "", repo.loc(fn))
     es = repo.func(f"{HD}._extract_shebang")
     src = re.sub(r"\s+", " ", ast.unparse(es))
+    from ..rules import deep_text as _dt
+    rets = [_dt(es, n.value) for n in ast.walk(es) if isinstance(n, ast.Return) and n.value is not None]
     ok = "for line in text.splitlines(keepends=True): if line.startswith(prefix): shebang_lines.append(line) text = text.replace(line, '', 1) else: break" in src \
-        and "return (shebang, text)" in src
+        and rets == ["(''.join(shebang_lines), text)"]
     r.instance("_extract_shebang", {"ok": ok})
     if not ok:
         r.violation(f"{HD}._extract_shebang", "extraction", "leading lines with the prefix are moved (kept verbatim, ends included)", repo.loc(es))
